@@ -537,12 +537,21 @@ class BasicContiguousVector<cntgs::Options<Option...>, Parameter...>
 
     void copy_assign(const BasicContiguousVector& other)
     {
+        // allocate memory first because it might throw
+        auto allocator = get_allocator();
+        if constexpr (AllocatorTraits::propagate_on_container_copy_assignment::value)
+        {
+            allocator = other.get_allocator();
+        }
+        StorageType new_memory{other.memory_.size(), allocator};
+        ElementLocatorAndFixedSizes other_locator{other.locator_,           other.memory_begin(),
+                                                  other.max_element_count_, reinterpret_cast<std::byte*>(new_memory.get()),
+                                                  other.max_element_count_, allocator};
+        BasicContiguousVector::insert_into(*other_locator, other.max_element_count_, new_memory, other);
         destruct();
         locator_->deallocate(max_element_count_, get_allocator());
-        memory_ = other.memory_;
-        ElementLocatorAndFixedSizes other_locator{other.locator_, other.memory_begin(),     other.max_element_count_,
-                                                  memory_begin(), other.max_element_count_, get_allocator()};
-        BasicContiguousVector::insert_into(*other_locator, other.max_element_count_, memory_, other);
+        memory_.reset(std::move(new_memory));
+        memory_.propagate_on_container_copy_assignment(other.memory_);
         max_element_count_ = other.max_element_count_;
         locator_ = std::move(other_locator);
     }
